@@ -415,6 +415,17 @@ def work_presets(netsl, tier, seed, res):
                 lambda: pb.RandomGreedyOptimizer(
                     max_repeats=2, seed=seed, accel=False,
                     parallel=False)(inputs, output, sd), "path")
+        if n == 1:
+            # the explicit (empty) path of a 1-tensor contraction
+            for empty in ((), []):
+                run_one(res, "explicit-linear-empty", {"optimize": empty},
+                        net, lambda: ctg.array_contract_path(
+                            inputs, output, sd, optimize=empty, cache=False),
+                        "path")
+                run_one(res, "explicit-linear-empty-tree",
+                        {"optimize": empty}, net,
+                        lambda: ctg.array_contract_tree(
+                            inputs, output, sd, optimize=empty), "tree~")
         if n >= 2:
             for cache in (False, True):
                 run_one(res, f"AutoOptimizer-hyper-branch[cache={cache}]",
